@@ -10,6 +10,10 @@ use crate::util::{sync::CachePadded, thread::local::PThreadKey};
 #[cfg(not(target_os = "macos"))]
 use std::cell::UnsafeCell;
 
+// Verification hook: `thread_local!` that the controlled scheduler can see.
+#[cfg(divan_verif)]
+use ::divan_verif_rt::shim::thread_local;
+
 /// The `AllocProfiler` when running crate-internal tests.
 ///
 /// This enables us to test it for:
@@ -334,6 +338,9 @@ impl ThreadAllocInfo {
 
     /// Sets 0 to all values.
     pub fn clear(&mut self) {
+        #[cfg(divan_verif)]
+        ::divan_verif_rt::log::tally_cleared();
+
         *self = Self::new();
     }
 
